@@ -342,6 +342,15 @@ func (d *Data) GetVoxels(v dvid.VersionID, vox *Voxels, roiname dvid.InstanceNam
 
 	ctx := datastore.NewVersionedCtx(d, v)
 
+	// Voxels of blocks that were never written must read as the background value, as in GetBlocks.
+	if d.Background != 0 && d.Values.BytesPerElement() == 1 {
+		background := byte(d.Background)
+		buf := vox.Data()
+		for i := range buf {
+			buf[i] = background
+		}
+	}
+
 	wg := new(sync.WaitGroup)
 
 	okv := store.(storage.BufferableOps)
